@@ -64,6 +64,14 @@ def plan(tier, seed):
             d = lops.gen_leaf(rng, kind, None, maxn)
             if d is not None:
                 P.add("lin:" + kind, desc=d)
+    for kind in lops.LEAF_KINDS:
+        # size / magnitude dependent regime (lengths past 16 / 32, > 3 batch or coil entries,
+        # data scaled by 1e-8 / 1e+8)
+        rng = P.rng("lin-big:" + kind)
+        for i in range(3 if quick else 40):
+            d = lops.gen_leaf(rng, kind, None, 34)
+            if d is not None:
+                P.add("lin-big:" + kind, desc=d, mag=pick(rng, [1, 1, 1e-8, 1e8]))
     rng = P.rng("lin:tree")
     for i in range(300 if quick else 8000):
         depth = int(rng.integers(1, 4 if quick else 5))
@@ -127,6 +135,9 @@ def run_lin(case):
     try:
         x = crandn(rng, ish, cdt)
         y = crandn(rng, ish, cdt)
+        if case.get("mag", 1) != 1:
+            x, y = x * cdt(case["mag"]), y * cdt(case["mag"])
+            sig += "|mag%g" % case["mag"]
         if fort and len(ish) >= 2:
             x, y = np.asfortranarray(x), np.asfortranarray(y)      # memory layout variant
             sig += "|F"
@@ -620,7 +631,7 @@ def run_history(case):
 
 def run_case(case):
     g = case["gen"]
-    if g.startswith("lin:"):
+    if g.startswith("lin:") or g.startswith("lin-big:"):
         return run_lin(case)
     if g == "func":
         return run_func(case)
